@@ -32,7 +32,10 @@ class DirHandler(BaseHandler):
         self.files = []
         dirfiles = self.vfs.listdir(self.getselector())
         ignorepatt = self.config.get("handlers.dir.DirHandler", "ignorepatt")
-        for file in dirfiles:
+        # Walk the names in sorted order: subclasses act on them as they go
+        # (UMN reads link files here), so the result must not depend on the
+        # order in which the operating system happens to enumerate them.
+        for file in sorted(dirfiles):
             if self.prep_initfiles_canaddfile(
                 ignorepatt, self.selectorbase + "/" + file, file
             ):
